@@ -30,8 +30,7 @@ def main():
                         res.append((kind, "SerifTypeError"))
             else:
                 t, over, vspecs, _ = R.realise_group(case)
-                over_arg = over[0] if (case["single"] and len(over) == 1) else over
-                kw = {f"{f}_over": [vspecs[j] for j in idx] for f, idx in case["aggs"].items()}
+                over_arg, kw = R.group_call_args(case, over, vspecs)
                 res = []
                 for meth in ("aggregate", "window"):
                     r = getattr(t, meth)(over=over_arg, **kw)
